@@ -74,6 +74,19 @@ fn materialise(c: &Case) -> Result<Mat, String> {
     let cap = if k <= 7 { k + 12 } else { 5 * k };
     for (ci, (lsel, mat)) in c.contigs.iter().enumerate() {
         let len = if ci == 0 && c.exact_k_contig { k } else { k + gen::idx(*lsel, cap - k + 1) };
+        // a third of the contigs start or end with a short run of one base (A or T): packed k-mers with
+        // leading / trailing zero or all-one bit groups (a pure function of the case)
+        let mut mat = mat.clone();
+        let sel = k + mat.len() + ci;
+        if sel % 3 == 0 && !mat.is_empty() {
+            let run = (2 + sel % 7).min(mat.len());
+            let fill = if sel % 2 == 0 { 0u8 } else { 3u8 }; // BASES index: A or T
+            let n = mat.len();
+            for i in 0..run {
+                if sel % 5 < 3 { mat[i] = fill; } else { mat[(len - 1 - i.min(len - 1)) % n] = fill; }
+            }
+        }
+        let mat = &mat;
         match gen::unique_seq(mat, len, k, true, &mut seen) {
             Some(s) => ancestor.push(s),
             None => return Err("no unique extension".into()),
@@ -84,7 +97,8 @@ fn materialise(c: &Case) -> Result<Mat, String> {
     for (si, s) in c.sites.iter().enumerate() {
         let ci = if si == 0 && c.exact_k_contig { 0 } else { gen::idx(s.contig, ancestor.len()) };
         let len = ancestor[ci].len();
-        let p = h + gen::idx(s.pos, len - 2 * h);
+        // a quarter of the sites sit at the minimum distance from a contig end (left or right)
+        let p = match s.pos % 8 { 0 => h, 1 => len - h - 1, _ => h + gen::idx(s.pos, len - 2 * h) };
         if placed.iter().any(|(c2, p2, _)| *c2 == ci && (p as i64 - *p2 as i64).unsigned_abs() as usize <= h) {
             continue;
         }
